@@ -252,10 +252,56 @@ def runG (hd : String) (steps : List String) (impl : String) : Ans :=
         verdict := verdict
         tags := ["gslb"] ++ (if rej ≥ 1 then ["rejected-reload"] else []) ++ (if rej == 2 then ["nt"] else []) }
 
+/-! ### BalTable histories `t=<conf0>/<conf1>;<step>;..` (two clusters; empty conf = cluster absent from the reload)
+      trl:<conf0>/<conf1>  BalTableReload → `ok` | `rej` (the Reload of some listed cluster was rejected: total weight ≤ 0);
+                           every LISTED cluster is in the table afterwards (also a rejected one), the others are released
+      tbal:<k>             Lookup + Balance → `ret` | `nolookup`
+      tst | tver           GetState / GetVersions → `ret`
+    no operation may block: by `C05_lock_released_on_every_exit` every path of every method releases its mutex -/
+
+def tReload (parts : List String) : Option (String × List Nat) :=
+  let rec go : List String → Nat → Bool → List Nat → Option (Bool × List Nat)
+    | [], _, rej, pres => some (rej, pres)
+    | p :: rest, k, rej, pres =>
+      if p == "" then go rest (k + 1) rej pres else
+      match parseConf p with
+      | none => none
+      | some c => go rest (k + 1) (rej || decide (confTotal c ≤ 0)) (pres ++ [k])
+  (go parts 0 false []).map fun r => (if r.1 then "rej" else "ok", r.2)
+
+def runT (hd : String) (steps : List String) (impl : String) : Ans :=
+  let first := "trl:" ++ (hd.drop 2).toString
+  let r := (first :: steps).foldl (fun (acc : List Nat × List String × Bool × Nat) st =>
+    let (pres, outs, bad, rej) := acc
+    if bad then acc else
+    if st.startsWith "trl:" then
+      let parts := ((st.drop 4).toString).splitOn "/"
+      if parts.length != 2 then (pres, outs, true, rej) else
+      match tReload parts with
+      | none => (pres, outs, true, rej)
+      | some (res, pres') => (pres', res :: outs, false, if res == "rej" then 1 else if rej == 1 then 2 else rej)
+    else if st.startsWith "tbal:" then
+      match ((st.drop 5).toString).toNat? with
+      | some k => (pres, (if pres.contains k then "ret" else "nolookup") :: outs, false, if rej == 1 then 2 else rej)
+      | none => (pres, outs, true, rej)
+    else if st == "tst" || st == "tver" then (pres, "ret" :: outs, false, if rej == 1 then 2 else rej)
+    else (pres, outs, true, rej)) ([], [], false, 0)
+  let (_, outs, bad, rej) := r
+  if bad then { model := "bad-op", verdict := "skip" } else
+  let toks := impl.splitOn " "
+  { model := " ".intercalate outs.reverse
+    verdict :=
+      if impl == "skipped-after-hangs" || impl == "bad-op" then "skip"
+      else if toks.any (· == "HANG") then "FAIL:table-hang"
+      else if toks.any (·.startsWith "PANIC:") then "FAIL:table-panic"
+      else "ok"
+    tags := ["table"] ++ (if rej ≥ 1 then ["rejected-reload"] else []) ++ (if rej == 2 then ["nt"] else []) }
+
 def run (op impl : String) : Ans :=
   match op.splitOn ";" with
   | hd :: steps =>
     if hd.startsWith "g=" then runG hd steps impl else
+    if hd.startsWith "t=" then runT hd steps impl else
     if !hd.startsWith "w=" then { model := "bad-op", verdict := "skip" } else
     match parseInts (hd.drop 2).toString with
     | none => { model := "bad-op", verdict := "skip" }
